@@ -252,35 +252,84 @@ Proof.
   pose proof (next_word s Hs) as [H1 H2]. rewrite E in H1, H2. exact (conj H1 H2).
 Qed.
 
-(* ------------------------------------------------------------------ shuffle: same elements *)
+(* ------------------------------------------------------------------ shuffle: a permutation *)
+
+Lemma set_nth_length {A} (l : list A) : forall n v, length (set_nth l n v) = length l.
+Proof. induction l as [|x t IH]; intros [|n] v; cbn [set_nth length]; auto. Qed.
+
+(* putting b at position j, where it already is, in exchange for x in front *)
+Lemma perm_exchange {A} (x b : A) : forall t j,
+  nth_error t j = Some b -> Permutation (b :: set_nth t j x) (x :: t).
+Proof.
+  induction t as [|y t IH]; intros [|j] H; cbn [nth_error] in H; try discriminate.
+  - inversion H; subst. cbn [set_nth]. apply perm_swap.
+  - cbn [set_nth]. eapply perm_trans; [apply perm_swap|].
+    eapply perm_trans; [apply perm_skip; apply IH; exact H|]. apply perm_swap.
+Qed.
+
+Lemma swap_perm {A} : forall (l : list A) i j, Permutation (swap l i j) l.
+Proof.
+  unfold swap. induction l as [|x t IH]; intros i j.
+  - destruct (nth_error [] i); [destruct (nth_error [] j)|]; reflexivity.
+  - destruct i as [|i], j as [|j]; cbn [nth_error].
+    + cbn [set_nth]. reflexivity.
+    + destruct (nth_error t j) as [b|] eqn:Ej; [|reflexivity]. cbn [set_nth]. apply perm_exchange; exact Ej.
+    + destruct (nth_error t i) as [a|] eqn:Ei; [|reflexivity]. cbn [set_nth]. apply perm_exchange; exact Ei.
+    + specialize (IH i j). destruct (nth_error t i) as [a|]; [|reflexivity].
+      destruct (nth_error t j) as [b|]; [|reflexivity]. cbn [set_nth]. apply perm_skip; exact IH.
+Qed.
 
 Lemma swap_length {A} (l : list A) i j : length (swap l i j) = length l.
-Proof.
-  unfold swap. destruct (nth_error l i); [|reflexivity]. destruct (nth_error l j); [|reflexivity].
-  rewrite map_length, combine_length, seq_length. lia.
-Qed.
+Proof. apply Permutation_length, swap_perm. Qed.
 
 Lemma swap_incl {A} (l : list A) i j x : In x (swap l i j) -> In x l.
+Proof. apply Permutation_in, swap_perm. Qed.
+
+(* the deterministic core of shuffle: the list obtained from the draws j_1, j_2, ... *)
+Fixpoint shuffle_with {A} (js : list nat) (i : nat) (l : list A) : list A :=
+  match js with
+  | [] => l
+  | j :: t => shuffle_with t (S i) (if Nat.eqb i j then l else swap l i j)
+  end.
+
+Lemma shuffle_with_perm {A} js : forall i (l : list A), Permutation (shuffle_with js i l) l.
 Proof.
-  unfold swap. destruct (nth_error l i) as [a|] eqn:Ni; [|auto].
-  destruct (nth_error l j) as [b|] eqn:Nj; [|auto].
-  rewrite in_map_iff. intros ((k, c) & E & Hin).
-  destruct (Nat.eqb k i); [subst; eapply nth_error_In; eauto|].
-  destruct (Nat.eqb k j); [subst; eapply nth_error_In; eauto|].
-  subst. eapply in_combine_r; eauto.
+  induction js as [|j t IH]; intros i l; cbn [shuffle_with]; [reflexivity|].
+  eapply perm_trans; [apply IH|]. destruct (Nat.eqb i j); [reflexivity|apply swap_perm].
 Qed.
 
-Lemma shuffle_from_incl {A} n : forall i (l l' : list A) s s',
-  shuffle_from n i l s = Done l' s' -> (forall x, In x l' -> In x l) /\ length l' = length l.
+(* shuffle is shuffle_with on the draws it makes: draw number k (for position i = k + 1)
+   lies in [0, i] *)
+Lemma shuffle_from_draws {A} n : forall i (l l' : list A) s s',
+  shuffle_from n i l s = Done l' s' ->
+  exists js, length js = n /\ l' = shuffle_with js i l /\ forall k j, nth_error js k = Some j -> (j <= i + k)%nat.
 Proof.
-  induction n as [|n IH]; intros i l l' s s' H; simpl in H.
-  - inversion H; subst. auto.
+  induction n as [|n IH]; intros i l l' s s' H; cbn [shuffle_from] in H.
+  - inversion H; subst. exists []. split; [reflexivity|]. split; [reflexivity|]. intros [|k] j Hk; discriminate.
   - unfold bindR in H. destruct (randint 0 (Z.of_nat i) s) as [j s1| |] eqn:R; try discriminate.
-    apply IH in H. destruct H as [H1 H2].
-    destruct (Nat.eqb i (Z.to_nat j)); [auto|].
-    split; [intros x Hx; eapply swap_incl; apply H1; exact Hx | rewrite H2; apply swap_length].
+    apply randint_range in R.
+    apply IH in H. destruct H as (js & Hlen & -> & Hb).
+    exists (Z.to_nat j :: js). split; [cbn [length]; congruence|]. split; [reflexivity|].
+    intros [|k] j' Hk; cbn [nth_error] in Hk.
+    + inversion Hk; subst. lia.
+    + apply Hb in Hk. lia.
+Qed.
+
+Lemma shuffle_draws {A} (l l' : list A) s s' :
+  shuffle l s = Done l' s' ->
+  exists js, length js = (length l - 1)%nat /\ l' = shuffle_with js 1 l /\ forall k j, nth_error js k = Some j -> (j <= S k)%nat.
+Proof. unfold shuffle. intros H. apply shuffle_from_draws in H. exact H. Qed.
+
+Lemma shuffle_perm {A} (l l' : list A) s s' : shuffle l s = Done l' s' -> Permutation l l'.
+Proof.
+  intros H. apply shuffle_draws in H. destruct H as (js & _ & -> & _).
+  apply Permutation_sym, shuffle_with_perm.
 Qed.
 
 Lemma shuffle_incl {A} (l l' : list A) s s' :
   shuffle l s = Done l' s' -> (forall x, In x l' -> In x l) /\ length l' = length l.
-Proof. apply shuffle_from_incl. Qed.
+Proof.
+  intros H. apply shuffle_perm in H. split.
+  - intros x Hx. eapply Permutation_in; [apply Permutation_sym; exact H|exact Hx].
+  - symmetry. apply Permutation_length; exact H.
+Qed.
